@@ -30,7 +30,10 @@ META = dict(
           "shaped vectors; order n and < n), slq (same operators, order >= n and < n, 1-4 probes, vmap/lmap), "
           "elbo_re (1-5 data x 2-6 latent, Q in {exact, shifted mean, perturbed covariance}, options eigsh/slq x "
           "signal/data/auto x metric_jit x slq_jit x compute_all / n_eigenvalues x batches x resume at k), "
-          "elbo_cl (the mirrored classic model; compute_all / partial / resume / analytic_prior_term). "
+          "elbo_resume (3-9 data x 3-9 latent, n_eigenvalues up to the full relevant dimension; every resume split "
+          "1..n_eigenvalues x n_batches in {1,2,3,4} x signal/data/auto x with/without resume_eigenvalues, each "
+          "compared with the one-go run of the same batch schedule, the dense closed form and the expected number "
+          "of eigenvalues), elbo_cl (the mirrored classic model; compute_all / partial / resume / analytic_prior_term). "
           "non-trivial: lanczos/slq: n >= 4 and non-uniform spectrum; elbo: perturbed Q or resumed or slq; "
           "distinct = distinct descriptor"),
     assumptions=[
@@ -42,7 +45,7 @@ META = dict(
         "form only (it is then not the ELBO of Q, the entropy term is that of Lambda^-1)",
     ],
     need=["lanczos_full", "lanczos_partial", "slq_full_order", "slq_probes_recorded", "elbo_re_calls",
-          "elbo_re_evidence", "elbo_re_kl", "elbo_re_resumed", "elbo_re_slq", "elbo_cl_calls",
+          "elbo_re_evidence", "elbo_re_kl", "elbo_re_resumed", "elbo_resume_split_inside_batch", "elbo_re_slq", "elbo_cl_calls",
           "elbo_cl_vs_re"],
     quick=dict(cases=70, workers=6, budget_s=60),
     thorough=dict(cases=1500, workers=16, budget_s=780),
@@ -511,9 +514,145 @@ def case_elbo_re(ck, rng, bad, with_cl=False):
                 observed=mc, expected=float(logev_c))
 
 
+def gen_gauss_model_big(rng):
+    """larger linear Gaussian model for the resume sweep (up to 8 relevant eigenvalues)"""
+    for _ in range(200):
+        n = int(pick(rng, [3, 4, 5, 6, 6, 7, 7, 8, 8, 9]))
+        m = int(pick(rng, [3, 4, 5, 6, 6, 7, 7, 8, 8, 9]))
+        R = rng.standard_normal((m, n)) * rfloat(rng, 0.7, 3)
+        iv = np.exp(rng.uniform(-0.5, 2.0, m))
+        d = rng.standard_normal(m) * 2
+        Lm = np.sqrt(iv)[:, None] * R
+        mu = np.sort(np.linalg.eigvalsh(Lm @ Lm.T))[::-1][:min(m, n)]
+        if mu.min() > 0.05 and np.all(mu[:-1] / mu[1:] > 1.05):
+            return n, m, R, iv, d
+    raise RuntimeError("no well separated model")
+
+
+def case_elbo_resume(ck, rng, bad):
+    """resumed eigenvalue computation: every split point 0..n_eigenvalues x n_batches in {1,2,3,4}, signal /
+    data / auto, with and without resume_eigenvalues.  Every run must equal the one-go run and the dense
+    closed form, and use exactly n_eigenvalues eigenvalues (lower_error as documented)."""
+    jnp, jft, jax = (ck.state[k] for k in ("jnp", "jft", "jax"))
+    n, m, R, iv, d = gen_gauss_model_big(rng)
+    Lam, Sig, pmean, logev_c = closed_forms(R, iv, d)
+    nrel = min(m, n)
+    space = pick(rng, ["signal", "data", "data", "auto"])
+    use_data = space == "data" or (space == "auto" and m <= n)
+    opL = np.sqrt(iv)[:, None] * R
+    Aop = (opL @ opL.T) if use_data else Lam
+    w, V = np.linalg.eigh(Aop)
+    w, V = w[::-1], V[:, ::-1]
+    logw = np.log1p(w) if use_data else np.log(w)
+    nev = nrel if rng.integers(0, 3) else int(rng.integers(2, nrel + 1))
+    Rj, ivj, dj = jnp.asarray(R), jnp.asarray(iv), jnp.asarray(d)
+    lh = jft.Gaussian(dj, noise_cov_inv=lambda x: ivj * x, noise_std_inv=lambda x: jnp.sqrt(ivj) * x)
+    lh = lh.amend(jft.Model(lambda x: Rj @ x, domain=jft.ShapeWithDtype((n,))))
+    res = sigma_points(Sig)
+    samples = jft.Samples(pos=jnp.asarray(pmean), samples=jnp.asarray(res))
+    Hs = np.array([Hnp(R, iv, d, pmean + r) for r in res])
+    trlog = float(np.sum(logw[:nev]))
+    exp_samples = -Hs + 0.5 * n - 0.5 * trlog
+    low = 0.5 * (nrel - nev) * float(np.min(logw[:nev]))
+    sc = float(np.max(np.abs(exp_samples)) + abs(np.sum(logw)) + 1)
+    thorough = ck.thorough()
+    desc = dict(fam="elbo_resume", n=n, m=m, space=space, nev=int(nev), nrel=int(nrel))
+    ck.note(desc, nontrivial=True, klass="elbo_resume")
+    route = "data" if use_data else "signal"
+    base = {}
+    for nb in (1, 2, 3, 4):
+        # one-go reference run of the real code with the same batch schedule
+        es0, st0 = jft.estimate_evidence_lower_bound(
+            lh, samples, nev, trace_log_space=space, n_batches=nb, verbose=False, metric_jit=False,
+            output_directory=None)
+        base[nb] = (np.asarray(es0), float(st0["lower_error"]))
+        ck.hit("elbo_re_calls")
+        if not np.all(np.abs(base[nb][0] - exp_samples) <= 1e-8 * sc) or abs(base[nb][1] - low) > 1e-8 * sc:
+            bad(f"elbo_re:one-go:{route}", "one-go ELBO (n_batches varied) differs from the dense closed form",
+                n_batches=nb, nev=int(nev), observed=base[nb][0][:2].tolist(), expected=exp_samples[:2].tolist(),
+                lower_error=[base[nb][1], low])
+    splits = list(range(1, nev + 1))
+    for split in splits:
+        nbs = (1, 2, 3, 4) if (thorough or nev <= 6) else tuple(int(x) for x in rng.choice([1, 2, 3, 4], 2, False))
+        for nb in nbs:
+            with_ev = bool(rng.integers(0, 2))
+            kw = dict(resume_eigenvectors=V[:, :split] * rng.choice([-1.0, 1.0], split))
+            if with_ev:
+                kw["resume_eigenvalues"] = w[:split].copy()
+            else:
+                kw["orthonormalize_eigenvectors"] = False
+            es, st = jft.estimate_evidence_lower_bound(
+                lh, samples, nev, trace_log_space=space, n_batches=nb, verbose=False,
+                metric_jit=bool(rng.integers(0, 8) == 0), output_directory=None, **kw)
+            es = np.asarray(es)
+            ck.hit("elbo_re_calls")
+            ck.hit("elbo_re_resumed")
+            ck.hit("elbo_resume_split_batch_combos")
+            # where the split falls relative to the documented batch schedule
+            b0, r0 = divmod(nev, nb)
+            sched = [b0 + 1] * r0 + [b0] * (nb - r0)
+            bounds = set(np.cumsum([x for x in sched if x > 0]).tolist()) | {0}
+            inside = split not in bounds
+            if inside and split < nev:
+                ck.hit("elbo_resume_split_inside_batch")
+            wit = dict(split=int(split), n_batches=nb, nev=int(nev), nrel=int(nrel), space=space,
+                       with_resume_eigenvalues=with_ev, split_inside_batch=bool(inside))
+            # (b) number of eigenvalues actually used, seen through the trace-log: compare with every k
+            d_tr = 2.0 * float(np.mean(es - (-Hs + 0.5 * n)))            # = -sum of the logs that were used
+            used = [k for k in range(0, nrel + 1) if abs(-d_tr - float(np.sum(logw[:k]))) <= 1e-7 * sc]
+            if used and used[0] != nev:
+                bad(f"elbo_re:resume:{route}:eigenvalue-count", "a resumed run used a different number of "
+                    "eigenvalues than requested (and than the one-go run)", used=int(used[0]), **wit)
+                continue
+            # (a) equals the one-go run and the dense closed form
+            if es.shape != exp_samples.shape or not np.all(np.abs(es - base[nb][0]) <= 1e-8 * sc) or \
+                    not np.all(np.abs(es - exp_samples) <= 1e-8 * sc):
+                bad(f"elbo_re:resume:{route}:value", "resumed ELBO differs from the one-go run / the dense "
+                    "closed form", observed=es[:2].tolist(), one_go=base[nb][0][:2].tolist(),
+                    expected=exp_samples[:2].tolist(), **wit)
+                continue
+            if abs(float(st["lower_error"]) - low) > 1e-8 * sc or abs(float(st["lower_error"]) - base[nb][1]) > 1e-8 * sc:
+                bad(f"elbo_re:resume:{route}:lower_error", "lower_error of a resumed run differs from the one-go "
+                    "run / 1/2 (n_rel - k) min log(lambda)", observed=float(st["lower_error"]), expected=low, **wit)
+    if nev == nrel:
+        ck.hit("elbo_re_evidence")
+        if not abs(float(np.mean(base[1][0])) - logev_c) <= 1e-8 * sc:
+            bad(f"elbo_re:evidence:eigsh/{route}/all", "ELBO of the exact posterior != log p(d) + 1/2 log|2 pi N|")
+
+    # ---- the classic implementation (signal space only): same sweep over split x n_batches ----------------
+    ift = ck.state["ift"]
+    dd, ld = ift.UnstructuredDomain(m), ift.UnstructuredDomain(n)
+    lhc = ift.GaussianEnergy(ift.makeField(dd, d), ift.makeOp(ift.makeField(dd, iv), sampling_dtype=float)) \
+        @ dense_cl_operator(ift, ld, dd, R)
+    ham = ift.StandardHamiltonian(lhc)
+    half = res[:n]
+    sl = ift.ResidualSampleList(ift.makeField(ld, pmean), [ift.makeField(ld, r) for r in half] * 2,
+                                [False] * n + [True] * n)
+    wl, Vl = np.linalg.eigh(Lam)
+    wl, Vl = wl[::-1], Vl[:, ::-1]
+    exp_c = -Hs + 0.5 * n - 0.5 * float(np.sum(np.log(wl[:nev])))
+    lowc = 0.5 * (nrel - nev) * float(np.min(np.log(wl[:nev])))
+    for split in range(0, nev + 1):
+        for nb in (1, 2, 3, 4):
+            kw = {}
+            if split > 0:
+                kw = dict(resume_eigenvectors=Vl[:, :split] * rng.choice([-1.0, 1.0], split),
+                          resume_eigenvalues=wl[:split].copy())
+            esc, stc = ift.estimate_evidence_lower_bound(ham, sl, nev, n_batches=nb, verbose=False, **kw)
+            esc = np.array([float(x.asnumpy()) for x in esc.iterator()])
+            ck.hit("elbo_cl_calls")
+            ck.hit("elbo_cl_resume_combos")
+            if esc.shape != exp_c.shape or not np.all(np.abs(esc - exp_c) <= 1e-8 * sc) or \
+                    abs(float(stc["lower_error"].asnumpy()) - lowc) > 1e-8 * sc:
+                bad("elbo_cl:resume:value", "classic resumed / batched ELBO differs from the dense closed form "
+                    "(value or lower_error)", split=int(split), n_batches=nb, nev=int(nev), nrel=int(nrel),
+                    observed=esc[:2].tolist(), expected=exp_c[:2].tolist(),
+                    lower_error=[float(stc["lower_error"].asnumpy()), lowc])
+
+
 def case(ck, i):
     rng = ck.rng()
-    fams = ["lanczos"] * 3 + ["slq"] * 3 + ["elbo_re"] * 3 + ["elbo_cl"] * 2
+    fams = ["lanczos"] * 3 + ["slq"] * 3 + ["elbo_re"] * 3 + ["elbo_cl"] * 2 + ["elbo_resume"] * 2
     fam = fams[(i * 4 + int(ck.rng(777).integers(0, len(fams)))) % len(fams)]      # round-robin
     bad = Bad(ck)
     if fam == "lanczos":
@@ -522,5 +661,7 @@ def case(ck, i):
         case_slq(ck, rng, bad)
     elif fam == "elbo_re":
         case_elbo_re(ck, rng, bad)
+    elif fam == "elbo_resume":
+        case_elbo_resume(ck, rng, bad)
     else:
         case_elbo_re(ck, rng, bad, with_cl=True)
